@@ -1,6 +1,7 @@
 import BtcwVerif.Lemmas.KMap
 import BtcwVerif.Lemmas.RefRange
 import BtcwVerif.Lemmas.RefExact
+import BtcwVerif.Lemmas.SyncTipHistory
 /-!
 # C13 — transaction history shows each known transaction once, at its current status
 
@@ -554,3 +555,66 @@ example : ConsistentHistory {} exOrder := by
     exact ⟨by decide, by decide, fun t ht => by cases ht; exact ⟨by decide, by decide⟩⟩
 
 end TxStore.C13
+
+/-! ## Wallet level (fixJ): `Wallet.GetTransactions` on the wallet model of engine `walletchain-sync`
+
+`SyncTip.getTransactions w from to` (Model/SyncTip.lean) is `wallet.GetTransactions` on the record-level wallet model
+(`w.mined` = wtxmgr's mined records `(tx, height, block hash)`, `w.unmined` = its unmined records): one entry of
+`MinedTransactions` per block record the store visits — ascending when `from' < to'`, descending otherwise, a negative
+bound standing for the mempool height — holding the transactions recorded at that height, and `UnminedTransactions` iff a
+bound is negative.  The engine compares it with the real `Wallet.GetTransactions` after every `gettxs` op; the theorems
+say that this answer reports every record in the range exactly once, under its block, for EVERY wallet state and range. -/
+namespace SyncTip
+
+/-- **soundness**: every transaction id listed under a reported block belongs to a mined record at that height, and the
+    height is in the range. -/
+theorem C13_wallet_history_sound (w : Wallet) (f t : Int) (h : Nat) (ids : List Nat)
+    (hm : (h, ids) ∈ (getTransactions w f t).mined) (id : Nat) (hid : id ∈ ids) :
+    InRange f t h ∧ ∃ r ∈ w.mined, r.height = h ∧ r.tx.id = id :=
+  history_sound w f t h ids hm id hid
+
+/-- **exactly once**: when no transaction has two mined records (a transaction is confirmed in one block), a mined
+    record whose height is in the range is reported under its block, that block occurs once in the answer, the
+    transaction occurs once in that block's list, and it is listed under no other block — in both directions and for
+    every pair of bounds. -/
+theorem C13_wallet_history_once (w : Wallet) (f t : Int) (hnd : (w.mined.map (·.tx.id)).Nodup) (r : Mined)
+    (hr : r ∈ w.mined) (hin : InRange f t r.height) :
+    (r.height, txsAt w r.height) ∈ (getTransactions w f t).mined ∧
+    (reportedHeights w f t).count r.height = 1 ∧
+    (txsAt w r.height).count r.tx.id = 1 ∧
+    ∀ h ids, (h, ids) ∈ (getTransactions w f t).mined → r.tx.id ∈ ids → h = r.height :=
+  history_once w f t hnd r hr hin
+
+/-- **blocks**: a height is reported iff a mined record exists at it and it lies in the range; no height twice. -/
+theorem C13_wallet_history_blocks (w : Wallet) (f t : Int) :
+    (∀ h, h ∈ reportedHeights w f t ↔ (∃ r ∈ w.mined, r.height = h) ∧ InRange f t h) ∧
+    (reportedHeights w f t).Nodup :=
+  ⟨mem_reportedHeights w f t, nodup_reportedHeights w f t⟩
+
+/-- **order**: ascending iff `from' < to'`, otherwise descending. -/
+theorem C13_wallet_history_order (w : Wallet) (f t : Int) :
+    (rangeBound f < rangeBound t → (reportedHeights w f t).Pairwise (· < ·)) ∧
+    (¬ rangeBound f < rangeBound t → (reportedHeights w f t).Pairwise (· > ·)) :=
+  history_order w f t
+
+/-- **unconfirmed**: the unmined records are reported (each as often as it is stored: once) iff one of the bounds is
+    negative. -/
+theorem C13_wallet_history_unmined (w : Wallet) (f t : Int) :
+    (f < 0 ∨ t < 0 → (getTransactions w f t).unmined.Perm (w.unmined.map (·.id))) ∧
+    (¬ (f < 0 ∨ t < 0) → (getTransactions w f t).unmined = []) :=
+  history_unmined w f t
+
+/-! Non-vacuity: blocks with 2, 1, 1 wallet transactions (the shape seed C13-6 needs), forwards and backwards. -/
+example :
+    let w : Wallet := { genesisWallet ⟨fun _ => 0, fun _ => []⟩ with
+      mined := [⟨⟨1, false⟩, 2, some [2, 1]⟩, ⟨⟨2, false⟩, 2, some [2, 1]⟩, ⟨⟨3, false⟩, 3, some [3, 2, 1]⟩,
+                ⟨⟨4, false⟩, 4, some [4, 3, 2, 1]⟩]
+      unmined := [⟨9, false⟩] }
+    (w.mined.map (·.tx.id)).Nodup ∧
+    getTransactions w 0 (-1) = ⟨[(2, [1, 2]), (3, [3]), (4, [4])], [9]⟩ ∧
+    getTransactions w (-1) 0 = ⟨[(4, [4]), (3, [3]), (2, [1, 2])], [9]⟩ ∧
+    getTransactions w 3 2 = ⟨[(3, [3]), (2, [1, 2])], []⟩ := by
+  refine ⟨by decide, by decide, by decide, by decide⟩
+
+end SyncTip
+
